@@ -1564,8 +1564,8 @@ def has_perm(user, perm, x):
             reverse = attr.reverse
             if reverse:
                 reverse_rules = reverse.entity._access_rules_.get(perm)
-                if not reverse_rules: return False
-                for reverse_rule in access_rules:
+                if not reverse_rules: continue
+                for reverse_rule in reverse_rules:
                     if user_groups.issuperset(reverse_rule.groups) \
                             and reverse.entity not in reverse_rule.entities_to_exclude \
                             and reverse not in reverse_rule.attrs_to_exclude:
@@ -1577,14 +1577,14 @@ def has_perm(user, perm, x):
         user_roles = get_user_roles(user, obj)
         obj_labels = get_object_labels(obj)
         for rule in access_rules:
-            if x in rule.entities_to_exclude: continue
+            if entity in rule.entities_to_exclude: continue
             elif not user_groups.issuperset(rule.groups): pass
             elif not user_roles.issuperset(rule.roles): pass
             elif not obj_labels.issuperset(rule.labels): pass
             else:
                 result = True
                 break
-    perm_cache[perm] = result
+    perm_cache[x] = result
     return result
 
 def can_view(user, x):
